@@ -91,9 +91,11 @@ func c17Memory(run *rt.Run, r *rt.Rand) {
 			run.Add("memory_scenarios_with_error_not_judged", 1)
 			continue
 		}
-		for i := 0; i < 40 && atomic.LoadInt64(&finalized) < total; i++ {
+		// (finalizers run on a goroutine of their own: on a loaded machine it may take a while to be scheduled;
+		// the loop only runs for as long as something is still unreclaimed)
+		for i := 0; i < 300 && atomic.LoadInt64(&finalized) < total-2; i++ {
 			runtime.GC()
-			time.Sleep(5 * time.Millisecond)
+			time.Sleep(10 * time.Millisecond)
 		}
 		left := total - atomic.LoadInt64(&finalized)
 		run.Eval(fmt.Sprintf("memory|%s|%d|%d", how, groups, per))
